@@ -37,11 +37,17 @@ impl<R: BufRead> Iterator for PacketParser<R> {
             return None;
         }
 
-        let header = match PacketHeader::try_from_reader(&mut self.reader) {
+        let mut tracked = TrackErrors {
+            inner: &mut self.reader,
+            failed: false,
+        };
+        let header = match PacketHeader::try_from_reader(&mut tracked) {
             Ok(header) => header,
             Err(err) => {
                 self.is_done = true;
-                if err.kind() == std::io::ErrorKind::UnexpectedEof {
+                // Input that ends ends the packet stream; an error raised by the underlying
+                // reader (whatever its kind) does not.
+                if err.kind() == std::io::ErrorKind::UnexpectedEof && !tracked.failed {
                     return None;
                 }
 
